@@ -136,6 +136,20 @@ CLAIMED = {
         "note": "MPI calls and allocations succeed; read requests never own attached-buffer space (bget does not exist).",
         "design_ref": "DESIGN.md section 3 / C13",
     },
+    "C19": {
+        "technique": "typestate taint of untrusted header words (raw / converted-to-signed / bounded) over clang CFGs, "
+                     "dominance rule for buffer refill width, guard rule on hint-derived table sizes, queue loop-range "
+                     "pairing",
+        "text": "Decides four structural necessary conditions of 'malformed input fails cleanly': each of the 22 "
+                "integers read from a file header is upper-bounded as a raw word, or sign-tested after conversion to a "
+                "signed type, before its first non-comparison use (or is a listed field that is dead / validated "
+                "later, which is re-verified); the 4- and 8-byte header reads are dominated by a refill test of the "
+                "same width; hash-table sizes taken from hints are rejected unless >= 1; loops over the request queues "
+                "stay inside the queue. It does not decide absence of undefined behaviour in general, double frees "
+                "(seeded change C19_b is missed), typed access to byte-sliced buffers, or resource proportionality.",
+        "note": "field identities from clang; LATER table: NC_var.len (dead), NC_var.begin (ncmpio_NC_check_voffs).",
+        "design_ref": "DESIGN.md section 3 / C19, rule R9a",
+    },
 }
 
 NA_REASON = {
